@@ -202,6 +202,24 @@ def config_facets(run):
     tmp = tempfile.mkdtemp(prefix="pvcfg", dir=os.environ.get("VERIF_SCRATCH"))
     cwd = os.getcwd()
     os.chdir(tmp)
+    import copy
+
+    def module_state():
+        return {k: copy.deepcopy(v) for k, v in vars(IO).items() if isinstance(v, (dict, list, set)) and not k.startswith("__")}
+
+    state0 = module_state()
+    dirty = []
+
+    _check_plain = _check_cfg
+
+    def _check_cfg_framed(IO_, core_, tmp_, pkeys, okeys, with_output=True):
+        try:
+            return _check_plain(IO_, core_, tmp_, pkeys, okeys, with_output)
+        finally:
+            now = module_state()
+            if now != state0 and len(dirty) < 3:
+                dirty.append(f"after parsing (parameters {list(pkeys)}, output {list(okeys)}, [output] table {'present' if with_output else 'absent'}): " + ", ".join(k for k in now if now[k] != state0.get(k)))
+
     try:
         bad, n = [], 0
         pk = [k for k in PARAM_OPTS if k not in ("phase_assemblage", "phase_fractions")]
@@ -211,7 +229,7 @@ def config_facets(run):
                 for pkeys in ((), ("phase_assemblage", "phase_fractions")):
                     n += 1
                     try:
-                        m = _check_cfg(IO, core, tmp, pkeys, okeys)
+                        m = _check_cfg_framed(IO, core, tmp, pkeys, okeys)
                     except Exception as e:
                         m = [f"raised {type(e).__name__}: {str(e)[:80]}"]
                     if m:
@@ -220,18 +238,20 @@ def config_facets(run):
             for pkeys in itertools.combinations(pk, r):
                 n += 1
                 try:
-                    m = _check_cfg(IO, core, tmp, pkeys, ())
+                    m = _check_cfg_framed(IO, core, tmp, pkeys, ())
                 except Exception as e:
                     m = [f"raised {type(e).__name__}: {str(e)[:80]}"]
                 if m:
                     bad.append((pkeys, (), m[:2]))
-        n += 1
-        try:
-            m = _check_cfg(IO, core, tmp, (), (), with_output=False)
-        except Exception as e:
-            m = [f"raised {type(e).__name__}: {str(e)[:80]}"]
-        if m:
-            bad.append(("no [output] table", m[:2]))
+        # no [output] table at all, alternating between assemblages (a parse must not depend on the parses before it)
+        for pkeys in ((), ("phase_assemblage", "phase_fractions"), (), ("phase_assemblage", "phase_fractions")):
+            n += 1
+            try:
+                m = _check_cfg_framed(IO, core, tmp, pkeys, (), with_output=False)
+            except Exception as e:
+                m = [f"raised {type(e).__name__}: {str(e)[:80]}"]
+            if m:
+                bad.append((f"no [output] table, parameters {list(pkeys)}, after parses of other configurations", m[:2]))
         run.exact(f"parse_config: every subset of the optional keys parses with the documented defaults [{n} configurations, exhaustive]", fn, not bad, f"{len(bad)} failing, e.g. {bad[:2]}" if bad else "defaults = DefaultParams values; raw_output/diagnostics default to all simulated phases",
                   info=None if not bad else dict(checker="contracts.C19:nat_config", inputs=dict(pkeys=list(bad[0][0]) if isinstance(bad[0][0], tuple) else [], okeys=list(bad[0][1]) if isinstance(bad[0][1], tuple) else [], with_output=isinstance(bad[0][0], tuple))))
         # fabric letters
@@ -242,6 +262,8 @@ def config_facets(run):
                 okf = okf and cfg["parameters"]["initial_olivine_fabric"] == fab
             except Exception:
                 okf = False
+        run.exact("parse_config/frame: no module-level state of pydrex.io is modified by any of these parses (a later parse cannot depend on an earlier one)", fn, not dirty, "; ".join(dirty) or "dict/list/set globals compared by value after every parse",
+                  info=None if not dirty else dict(checker="contracts.C19:nat_config_history", inputs=dict(rounds=2)))
         run.exact("parse_config: fabric letters A-E map to the olivine fabrics [exhaustive]", fn, okf, "")
         # single-fault invalid configurations
         faults = {
@@ -295,6 +317,31 @@ def nat_config(pkeys=(), okeys=(), with_output=True):
     finally:
         os.chdir(cwd)
     return dict(ok=not m, messages=m)
+
+
+def nat_config_history(rounds=2):
+    """Real code: two configurations without an [output] table and with different assemblages, parsed one after the other in
+    both orders, each give the documented defaults of their own assemblage."""
+    import logging
+
+    logging.disable(logging.CRITICAL)
+    import pydrex.io as IO
+    from pydrex import core
+
+    tmp = tempfile.mkdtemp(prefix="pvcfg", dir=os.environ.get("VERIF_SCRATCH"))
+    cwd = os.getcwd()
+    os.chdir(tmp)
+    msgs = []
+    try:
+        for pkeys in ((), ("phase_assemblage", "phase_fractions")) * rounds:
+            try:
+                m = _check_cfg(IO, core, tmp, pkeys, (), False)
+            except Exception as e:
+                m = [f"raised {type(e).__name__}: {str(e)[:100]}"]
+            msgs += [f"parameters {list(pkeys)}: {x}" for x in m]
+    finally:
+        os.chdir(cwd)
+    return dict(ok=not msgs, messages=msgs[:4])
 
 
 def _sample(run):
